@@ -369,7 +369,7 @@ Definition sx_action (x : sexp) : action :=
 Definition sx_fscript (x : sexp) : fscript :=
   {| f_id := sx_str (sx_nth 0 x); f_pre := map sx_action (sx_list (sx_nth 1 x));
      f_pass := sx_bool (sx_nth 2 x); f_post := map sx_action (sx_list (sx_nth 3 x));
-     f_fresh := sx_bool (sx_nth 4 x) |}.
+     f_fresh := sx_bool (sx_nth 4 x); f_mw := sx_nat (sx_nth 5 x) |}.
 Definition sx_fscripts (x : sexp) : list fscript := map sx_fscript (sx_list x).
 Definition sx_dcfg (x : sexp) : dcfg :=
   {| d_table := sx_table (sx_nth 0 x);
@@ -379,7 +379,8 @@ Definition sx_dcfg (x : sexp) : dcfg :=
      d_handlers := map (fun y => (sx_int (sx_nth 0 y), map sx_action (sx_list (sx_nth 1 y)))) (sx_list (sx_nth 4 x));
      d_encoding := sx_bool (sx_nth 5 x);
      d_recover := sx_bool (sx_nth 6 x);
-     d_recover_script := map sx_action (sx_list (sx_nth 7 x)) |}.
+     d_recover_script := map sx_action (sx_list (sx_nth 7 x));
+     d_condpanic := map sx_int (sx_list (sx_nth 10 x)) |}.
 
 Definition res_obs (r : res) : sexp :=
   let s := state_of r in
@@ -409,7 +410,7 @@ Definition run_disp (c impl : sexp) : sexp :=
   let rel := fold_left (fun a r => a + st_rel (state_of r)) results 0 in
   let k := if Z.eqb mode 0 then 2 else 3 in
   let m_obs := Lst [Lst obs; Lst obs; Lst (if Z.eqb mode 0 then [] else obs);
-                    Lst [of_nat (k * acq); of_nat (k * rel); I 0; I 0; I 0]] in
+                    Lst [of_nat (k * acq); of_nat (k * rel); I 0; I 0; I 0]; I 1] in
   (* spec on the implementation *)
   let i_seq := sx_list (sx_nth 0 impl) in
   let i_fresh := sx_list (sx_nth 1 impl) in
@@ -423,6 +424,12 @@ Definition run_disp (c impl : sexp) : sexp :=
         implb no_panic_scripts
               (sexp_eqb (of_strs (map strip_event (filter structural_event (sx_strs (sx_nth 5 io)))))
                         (of_strs (expected_events O cfg req)))) per in
+  let v_c06_attrs := forallb (fun x =>
+        let h := fst (fst x) in let io := snd x in
+        let req := sx_request (sx_nth 1 h) in
+        implb (no_panic_scripts && negb (cfg_has_fresh cfg))
+              (sexp_eqb (of_strs (filter (fun e => has_prefix e (L "see:")) (sx_strs (sx_nth 5 io))))
+                        (of_strs (expected_sees O cfg req)))) per in
   let v_c07 := forallb (fun x =>
         let h := fst (fst x) in let io := snd x in
         encoding_ok O cfg (Z.eqb (sx_int (sx_nth 0 h)) 1) (sx_request (sx_nth 1 h)) (sx_str (sx_nth 2 h))
@@ -459,6 +466,7 @@ Definition run_disp (c impl : sexp) : sexp :=
               else "empty")%string in
   Lst [ m_obs;
         Lst [ verdict "c06_filter_order" v_c06;
+              verdict "c06_attributes_reach_later_stages" v_c06_attrs;
               verdict "c06_concurrent_same_as_alone" v_c19_conc;
               verdict "c07_encoding_enabled_and_wanted" v_c07;
               verdict "c07_labelled_and_decodes" v_c07_label;
@@ -467,6 +475,7 @@ Definition run_disp (c impl : sexp) : sexp :=
               verdict "c10_recover_handler_at_most_once" v_c10_once;
               verdict "c10_compressors_released_once" v_c10_ledger;
               verdict "c10_body_complete" v_c10_decodes;
+              verdict "c10_container_usable_afterwards" (sx_bool (sx_nth 4 impl));
               verdict "c19_history_same_as_fresh" v_c19_hist;
               verdict "c19_concurrent_same_as_fresh" v_c19_conc ];
         A (L cls);
